@@ -118,7 +118,7 @@ def check_c03(tier, seed):
                 'PortSelectionTrace.tla. Also: every configuration made with the six preset functions of dznpy.adv_shell (mixed presets over every requires selection), and port names that differ in letter case only.')
     # (case_*: port names that differ in letter case only are different ports)
     cfgs = ['PortSelection_provides.cfg', 'PortSelection_requires.cfg', 'PortSelection_presets.cfg',
-            'PortSelection_case_req.cfg', 'PortSelection_case_prov.cfg']
+            'PortSelection_case_req.cfg', 'PortSelection_case_prov.cfg', 'PortSelection_both_small.cfg']
     if tier == 'thorough':
         cfgs.append('PortSelection_both.cfg')
     for cfg in cfgs:
